@@ -15,7 +15,6 @@ PROPS = {
         "assumptions": ["the three random draws of from_ip are arbitrary bytes (universally quantified in the theorem, observed in the tie)"],
     },
     "C19": {
-        "claimed": False,
         "engines": [{"name": "tid", "quick": 8, "thorough": 40}],
         "constants": ["ACTION_ID_BYTES", "MESSAGE_ID_BYTES", "ACTION_ID_PREALLOC_LEN", "MESSAGE_ID_PREALLOC_LEN"],
         "trusted": COMMON_TRUST + ["the shuffle of each id block is an arbitrary permutation (oracle input read through the hook accessor)"],
